@@ -148,6 +148,14 @@ class _Pipeline(FnContract):
             yield Clause("no_alignment_matrix_recorded_without_alignment", rec is None, role="prop", props=["C04"])
         else:
             I4 = spec.eye(4)
+            if (a.align or a.correct_scale) and est.align_result is None:
+                yield Clause("recorded_matrix_is_the_composition_of_the_applied_transformations", False, role="prop", props=["C04"],
+                             note="the requested alignment was never applied")
+                return
+            if a.align_origin and est.origin_result is None:
+                yield Clause("recorded_matrix_is_the_composition_of_the_applied_transformations", False, role="prop", props=["C04"],
+                             note="the requested origin alignment was never applied")
+                return
             if a.align or a.correct_scale:
                 r_, t_, s_ = est.align_result
                 if only_scale:
